@@ -61,7 +61,7 @@ pub fn run(seed: u64, n: usize) -> Value {
         results.push(json!({"contract": name, "input": input, "std": got, "spec": want}));
     };
     let mut counts = std::collections::BTreeMap::<&str, usize>::new();
-    for _ in 0..n {
+    for _k in 0..n {
         let s = rng.string(&alpha, 8);
         let sc = chars(&s);
         let p = rng.string(&['t', 's', '.', 'r', '#', '\n'], 2);
@@ -104,6 +104,48 @@ pub fn run(seed: u64, n: usize) -> Value {
         let set: std::collections::BTreeSet<&str> = [s.as_str(), p.as_str(), "m"].into_iter().collect();
         let listing: Vec<&str> = set.iter().cloned().collect();
         chk!("BTreeSet::iter ascending listing", listing.windows(2).all(|w| w[0] < w[1]) && listing.len() == set.len(), true);
+        // ---- contracts added later: inner slice, byte length, trim, HashSet::from, write!/format! shims, Display of references ----
+        if sc.len() >= 2 && sc[0].is_ascii() && sc[sc.len() - 1].is_ascii() {
+            chk!("str[1..len-1] (first and last char one byte)", s[1..s.len() - 1].to_string(), text(&sc[1..sc.len() - 1]));
+        }
+        chk!("byte length >= char count", s.len() >= sc.len(), true);
+        chk!("str::trim is a function of the text (idempotent, a sub-slice)", { let t = s.trim(); t.trim() == t && s.contains(t) }, true);
+        chk!("HashSet::from(array)", { let h = std::collections::HashSet::from([s.clone(), p.clone()]); let mut v: Vec<_> = h.into_iter().collect(); v.sort(); v }, { let mut v = vec![s.clone(), p.clone()]; v.sort(); v.dedup(); v });
+        {
+            use std::fmt::Write as _;
+            let mut w = String::from("x");
+            write!(w, "a{}b", s).unwrap(); writeln!(w, "{p}").unwrap(); writeln!(w).unwrap(); write!(w, "{{}}").unwrap();
+            chk!("write!/writeln! into a String append the pieces", w, format!("xa{s}b{p}\n\n{{}}"));
+            let (rs, rrs): (&str, &&str) = (s.as_str(), &s.as_str());
+            chk!("format! with several placeholders; Display of &&str / &&String", format!("{{ \"{}\": {} }} & {}{}", s, p, rrs, &&s), ["{ \"", rs, "\": ", p.as_str(), " } & ", rs, rs].concat());
+        }
+        // ---- the disk model of unit registry (File::create / OpenOptions / write_all / seek / read_to_string) ----
+        if _k % 97 == 0 {
+            use std::io::{Read, Seek, SeekFrom, Write};
+            let dir = std::env::temp_dir().join(format!("vx_conf_{}_{}", std::process::id(), _k));
+            let _ = std::fs::create_dir_all(&dir);
+            let f = dir.join("f.txt");
+            let old: Vec<u8> = format!("{s}{p}0123456789").into_bytes();
+            std::fs::write(&f, &old).unwrap();
+            // OpenOptions read+write: neither creates nor truncates; write_all overwrites at the cursor; seek(Start) sets it
+            let mut h = std::fs::OpenOptions::new().read(true).write(true).open(&f).unwrap();
+            let mut txt = String::new();
+            let all_utf8 = h.read_to_string(&mut txt).is_ok();
+            chk!("read_to_string from the start reads the whole file", all_utf8 && txt.as_bytes() == &old[..], true);
+            let pos = rng.below(old.len() + 1);
+            let buf = p.as_bytes().to_vec();
+            h.seek(SeekFrom::Start(pos as u64)).unwrap();
+            h.write_all(&buf).unwrap();
+            drop(h);
+            let mut want = old[..pos].to_vec(); want.extend_from_slice(&buf); if pos + buf.len() <= old.len() { want.extend_from_slice(&old[pos + buf.len()..]); }
+            chk!("write_all at the cursor overwrites, keeps the tail", std::fs::read(&f).unwrap(), want);
+            chk!("OpenOptions read+write does not create", std::fs::OpenOptions::new().read(true).write(true).open(dir.join("absent")).is_err(), true);
+            // File::create truncates
+            let mut c = std::fs::File::create(&f).unwrap();
+            c.write_all(s.as_bytes()).unwrap(); drop(c);
+            chk!("File::create truncates, write_all from 0", std::fs::read(&f).unwrap(), s.as_bytes().to_vec());
+            let _ = std::fs::remove_dir_all(&dir);
+        }
         // ---- paths (unix) ----
         let words = ["a", "b.ts", "..", ".", "c d", "x.ts.ts", ".h"];
         let mk = |rng: &mut Rng| -> String { let k = rng.below(4); let mut v: Vec<&str> = (0..k).map(|_| words[rng.below(words.len())]).collect(); if rng.below(4) == 0 { v.insert(0, ""); } v.join("/") };
